@@ -6,12 +6,11 @@ import OpcuaModel.Gen.RenewExpr
 namespace Opcua.SendRenew
 
 /-- `when` of `scheduleRenewal` in nanoseconds for a revised lifetime of `L`
-    milliseconds.  The generator matched
-    `unit * time.Duration(lifetime.Seconds()*renewAfter)`: the product is
-    truncated to a whole number of `truncUnitNs`.  (`Seconds()` is a float64;
-    for lifetimes below 2^32 ms the product is at least 1/4000 away from every
-    integer it does not hit exactly, far more than the rounding error, so the
-    truncation of the float equals the truncation of the rational.) -/
+    milliseconds, from the shape the generator matched:
+    `time.Duration(float64(lifetime)*renewAfter)` (truncation unit 1 ns; for
+    lifetimes below 2^32 ms the float64 product of an integer below 2^53 and
+    0.75 is exact) or, before the repair,
+    `unit * time.Duration(lifetime.Seconds()*renewAfter)` (truncated to whole `unit`s). -/
 def renewDelayNs (L : Nat) : Nat :=
   (L * 1000000 * Gen.RenewExpr.fracNum / (Gen.RenewExpr.fracDen * Gen.RenewExpr.truncUnitNs)) * Gen.RenewExpr.truncUnitNs
 
